@@ -96,6 +96,8 @@ type liveConsumer struct {
 	rtmp *ref.RtmpSubscriber
 	http *srv.HttpSub
 	gone bool
+	base int64 // bytes it had read when its admission was observed
+	fed  bool  // a non-empty message was published after its admission
 }
 
 func (lc *liveConsumer) count() int {
@@ -194,6 +196,11 @@ func runRelay(c *fw.Ctx, sc relayScenario, rng *rand.Rand) (res relayResult) {
 			return
 		}
 		rec.Admitted = true
+		if lc.rtmp != nil {
+			lc.base = lc.rtmp.RC.BytesRead()
+		} else {
+			lc.base = lc.http.RawBytes()
+		}
 		live = append(live, lc)
 	}
 	for _, p := range sc.Consumers {
@@ -266,8 +273,36 @@ func runRelay(c *fw.Ctx, sc relayScenario, rng *rand.Rand) (res relayResult) {
 				quiet = 0
 			}
 			last = sum
+			t0 := time.Now()
 			time.Sleep(20 * time.Millisecond)
+			if time.Since(t0) > 60*time.Millisecond {
+				// the scheduler itself is stalling (loaded machine): lal's writer goroutines share it,
+				// so a quiet tick proves nothing - start counting again
+				quiet = 0
+			}
 		}
+	}
+	// an admitted consumer that has not received a single byte since it joined although something
+	// was published after its admission: wait (bounded) for its first byte before judging. This only
+	// lengthens the wait - what it has at the end is judged as is.
+	firstByte := func() {
+		srv.WaitFor(1500*time.Millisecond, func() bool {
+			for _, lc := range live {
+				if lc.gone || !lc.fed {
+					continue
+				}
+				var n int64
+				if lc.rtmp != nil {
+					n = lc.rtmp.RC.BytesRead()
+				} else {
+					n = lc.http.RawBytes()
+				}
+				if n <= lc.base {
+					return false
+				}
+			}
+			return true
+		})
 	}
 	isIncStart := map[int]bool{}
 	for _, x := range incStart {
@@ -280,6 +315,7 @@ func runRelay(c *fw.Ctx, sc relayScenario, rng *rand.Rand) (res relayResult) {
 					res.Err = "lal did not process all messages of an incarnation"
 					return
 				}
+				firstByte()
 				stable()
 				closePub()
 			}
@@ -327,6 +363,9 @@ func runRelay(c *fw.Ctx, sc relayScenario, rng *rand.Rand) (res relayResult) {
 		}
 		if len(m.Payload) > 0 {
 			nonEmpty++
+			for _, lc := range live {
+				lc.fed = true
+			}
 		}
 		if i%96 == 95 {
 			// pacing (never a verdict): stay far below lal's 1024-entry per-consumer queues
@@ -346,6 +385,7 @@ func runRelay(c *fw.Ctx, sc relayScenario, rng *rand.Rand) (res relayResult) {
 		res.Err = "lal did not process all messages"
 		return
 	}
+	firstByte()
 	stable()
 	closePub()
 	stable()
